@@ -65,7 +65,7 @@ class Cfg(object):
             fl.append('-UNDEBUG')
         for d in self.defines:
             fl.append('-D' + d)
-        if self.std == 'c++2b':
+        if self.std == 'c++2b' and 'SVP_CONSTANT_EVALUATION_FLAVOUR' not in self.defines:
             # clang 14 + libstdc++ 12: std::is_constant_evaluated () is implemented with
             # `if consteval` in C++23 mode and clang 14's condition folder evaluates it to *true*
             # when emitting run-time code (a toolchain defect, not /repo's).  Making libstdc++
